@@ -89,6 +89,11 @@ pub enum Action {
     RevokeCo,
     /// remove co from the Space's owners (host API `put_space`)
     CoUnown,
+    /// the n-th publish of a long version chain of the configuration's policy
+    /// (not in the alphabets; used by the fixed policy-chain scenario). The
+    /// decisive statement flips late: 1..=9 harmless, 10 denies p1 `read`,
+    /// 11 drops the deny and allows everyone the bundle, 12 denies p1 `export`.
+    PolChain(u8),
 }
 
 pub const QUICK_ALPHABET: &[Action] = &[
@@ -112,6 +117,9 @@ impl Action {
         format!("{self:?}")
     }
     pub fn parse(name: &str) -> Option<Action> {
+        if let Some(n) = name.strip_prefix("PolChain(").and_then(|r| r.strip_suffix(')')) {
+            return n.parse().ok().map(Action::PolChain);
+        }
         FULL_ALPHABET.iter().copied().find(|a| a.name() == name)
     }
 }
@@ -132,6 +140,9 @@ pub struct Cfg {
     pub grant_rows: Vec<u64>,
     pub deleg_rows: Vec<u64>,
     pub policy_bound: bool,
+    /// what `publish_policy` answered, per publish of this configuration:
+    /// the version it minted, or None when it failed
+    pub minted: Vec<Option<u64>>,
     /// logical key -> element id on this Nexus
     pub id_of: BTreeMap<String, String>,
 }
@@ -152,6 +163,7 @@ impl Cfg {
             grant_rows: Vec::new(),
             deleg_rows: Vec::new(),
             policy_bound: false,
+            minted: Vec::new(),
             id_of: id_of.clone(),
         };
         for who in 1..4 {
@@ -185,6 +197,7 @@ impl Cfg {
             grant_rows: Vec::new(),
             deleg_rows: Vec::new(),
             policy_bound: false,
+            minted: Vec::new(),
             id_of: BTreeMap::new(),
         }
     }
@@ -307,7 +320,7 @@ impl Cfg {
                 obligations: Default::default(),
             })
             .collect();
-        nexus
+        let published = nexus
             .governance()
             .publish_policy(
                 PolicyDraft {
@@ -318,8 +331,9 @@ impl Cfg {
                 },
                 SYSTEM_PRINCIPAL,
             )
-            .await
-            .expect("machinery: publish_policy");
+            .await;
+        // judged by the caller: the n-th publish of a policy id mints version n
+        self.minted.push(published.ok().map(|row| row.version));
         if !self.policy_bound {
             let mut space = nexus.store.get_space(DEFAULT_SPACE).await.expect("machinery: get_space");
             space.default_policy_id = self.policy.clone();
@@ -440,6 +454,17 @@ impl Cfg {
                     MStmt { deny: false, principals: vec![], actions: bundle_p, scope: Scope::default(), cond: Cond::default(), cons: Cons::default() },
                     MStmt { deny: true, principals: vec![2], actions: strs(&["export"]), scope: Scope::default(), cond: Cond::default(), cons: Cons::default() },
                 ]).await
+            }
+            Action::PolChain(n) => {
+                let harmless = MStmt { deny: false, principals: vec![], actions: strs(&["discover"]), scope: Scope::default(), cond: Cond::default(), cons: Cons::default() };
+                let mut stmts = vec![harmless];
+                match n {
+                    10 => stmts.push(MStmt { deny: true, principals: vec![1], actions: strs(&["read"]), scope: Scope::default(), cond: Cond::default(), cons: Cons::default() }),
+                    11 => stmts.push(MStmt { deny: false, principals: vec![], actions: bundle, scope: Scope::default(), cond: Cond::default(), cons: Cons::default() }),
+                    12 => stmts.push(MStmt { deny: true, principals: vec![1], actions: strs(&["export"]), scope: Scope::default(), cond: Cond::default(), cons: Cons::default() }),
+                    _ => {}
+                }
+                self.publish(nexus, stmts).await
             }
             Action::RevokeOld | Action::RevokeNew => {
                 let pick = if action == Action::RevokeOld {
